@@ -1,7 +1,8 @@
 """Fail-closed `ast` translator for the index bookkeeping of psiaudio/pipeline.py (property C11).
 
-Reads the CURRENT source of  normalize_index(index, ndim)  and  PipelineData.__getitem__(self, s)  and emits
-coq/gen/PDataGen.v: gen_normalize_index and gen_getitem, statement by statement, over the value universe and the
+Reads the CURRENT source of  normalize_index(index, ndim),  PipelineData.__getitem__(self, s),  ensure_dim(arrays, dim)  and
+concat(arrays, axis=-1)  (pieces: annotated arrays) and emits coq/gen/PDataGen.v: gen_normalize_index, gen_getitem,
+gen_ensure_dim and gen_concat, statement by statement, over the value universe and the
 primitives of coq/PData/TieLib.v (pyval: int, np.integer, slice, list of ints / bools, 1-D integer / boolean ndarray,
 Ellipsis, None, tuple; annotations: the record pd of PData/Model.v).  coq/PData/ProofsTie.v proves the emitted
 definitions equal to the hand-written model (normalize_index, getitem of PData/Model.v) for every index value.
@@ -17,7 +18,10 @@ definitions equal to the hand-written model (normalize_index, getitem of PData/M
 NOT translated, pinned on their exact `ast.unparse` text (PINNED below): `obj = super().__getitem__(s)` (NumPy's own indexing
 + __array_finalize__: the modelled primitive np_super_getitem), `if not hasattr(obj, 'metadata'): return obj` (scalar
 result), `skip = object()` (the sentinel PSkip), the dead statement after `raise NotImplementedError`, the body of the
-property n_time (`return self.shape[-1]`), the all-True test of a list on the time axis.  Anything else raises TranslatorGap.
+property n_time (`return self.shape[-1]`), the all-True test of a list on the time axis; in concat: the whole body of
+dim_axis and the call `dim, axis = dim_axis(axis)` (primitive py_dim_axis), the three statements on `is_pipeline_data` (the
+pieces are annotated arrays: only the empty list reaches np.concatenate there), `result = np.concatenate(arrays, axis=axis)`
+(Model.cat_all) and the constructor call of the last line (Model.ctor_ok).  Anything else raises TranslatorGap.
 Comments, blank lines and docstrings do not reach the ast and are harmless."""
 import ast
 import os
@@ -28,7 +32,10 @@ class TranslatorGap(Exception):
 
 
 COQ_TYPE = {'val': 'pyval', 'vlist': 'list pyval', 'Z': 'Z', 'bool': 'bool', 'optZ': 'option Z', 'pd': 'pd',
-            'pyobj': 'pyobj', 'lab': 'lab', 'rate': '(Z * Z)', 'zlist': 'list Z'}
+            'pyobj': 'pyobj', 'lab': 'lab', 'rate': '(Z * Z)', 'zlist': 'list Z', 'cdim': 'cdim', 'pdlist': 'list pd',
+            'axis': 'pyaxis', 'shaped': '(list Z * nest)'}
+DIMNAME = {'time': 'DTime', 'channel': 'DChan', 'epoch': 'DEpoch'}
+EMPTY = {'vlist': '[]', 'lab': 'LMany []'}              # `x = []` for a local of that type
 ERR = {'IndexError': 'EIndex', 'ValueError': 'EValue', 'NotImplementedError': 'ENotImpl'}
 ISINST = {'int': 'isinst_int', 'np.integer': 'isinst_npinteger', 'slice': 'isinst_slice', 'list': 'isinst_list',
           'np.ndarray': 'isinst_ndarray', 'PipelineData': 'isinst_PipelineData'}
@@ -61,7 +68,25 @@ TARGETS = [
                 'skip = object()': 'sentinel'},
      'dead': ['obj.s0 += time_slice']},
 ]
-PRIMITIVES = sorted({'gbind', 'gand', 'gfold', 'giter', 'rep_range', 'pfull', 'py_is_none', 'py_is_ellipsis', 'py_is_skip',
+DIM_AXIS_BODY = ("if axis == 'time':\n    axis, dim = (-1, 'time')\nif axis == 'channel':\n    axis, dim = (-2, 'channel')\n"
+                 "if axis == 'epoch':\n    axis, dim = (-3, 'epoch')\nelif axis == -1:\n    dim = 'time'\nelif axis == -2:\n    dim = 'channel'\n"
+                 "elif axis == -3:\n    dim = 'epoch'\nelse:\n    raise ValueError(f'Axis not supported. Got {axis}')\nreturn (dim, axis)")
+PINNED_FUNCS = {'dim_axis': (['axis'], DIM_AXIS_BODY)}   # called through the primitive py_dim_axis: signature and body pinned
+TARGETS += [
+    {'name': 'ensure_dim', 'cls': None, 'params': [('arrays', 'pdlist'), ('dim', 'cdim')], 'ret': 'pdlist', 'locals': {},
+     'pinned': {}, 'dead': []},
+    {'name': 'concat', 'cls': None, 'params': [('arrays', 'pdlist'), ('axis', 'axis')], 'defaults': {'axis': '-1'}, 'ret': 'pyobj',
+     'locals': {'metadata': 'lab'},
+     'pinned': {'dim, axis = dim_axis(axis)': 'dim_axis',
+                'is_pipeline_data = [isinstance(a, PipelineData) for a in arrays]': 'all_annotated',
+                'if not any(is_pipeline_data):\n    return np.concatenate(arrays, axis=axis)': 'not_any',
+                "if not all(is_pipeline_data):\n    raise ValueError('Cannot concatenate pipeline and non-pipeline data')": 'not_all',
+                'result = np.concatenate(arrays, axis=axis)': 'np_concatenate',
+                'return PipelineData(result, fs=fs, s0=s0, channel=channel, metadata=metadata)': 'construct'},
+     'dead': []},
+]
+PRIMITIVES = sorted({'py_dim_axis', 'cdim_eqb', 'gmap', 'list_hd', 'obj_as_pd', 'rate_eqb', 'labs_concat', 'lab_extend',
+                     'lab_append', 'np_concatenate_none', 'np_concatenate_pd', 'pd_construct', 'eqb_lab', 'gbind', 'gand', 'gfold', 'giter', 'rep_range', 'pfull', 'py_is_none', 'py_is_ellipsis', 'py_is_skip',
                      'py_int', 'py_dtype_is_bool', 'py_iter', 'py_len', 'py_unpack1', 'py_unpack2', 'py_unpack3', 'py_optz',
                      'py_all_true_bools', 'lab_is_list', 'lab_wrap', 'lab_len', 'np_arange_getitem', 'lab_getitems',
                      'lab_getitem', 'np_array_getitem_tolist', 'np_super_getitem', 'rate_div', 'is_some'} |
@@ -79,10 +104,14 @@ def mg(name):
 
 
 def tup(names):
+    if not names:
+        return 'tt'
     return mg(names[0]) if len(names) == 1 else '(' + ', '.join(mg(v) for v in names) + ')'
 
 
 def pat(names):
+    if not names:
+        return '_'
     return mg(names[0]) if len(names) == 1 else "'(" + ', '.join(mg(v) for v in names) + ')'
 
 
@@ -110,7 +139,7 @@ def assigned(stmts):
             elif isinstance(n, ast.AugAssign):
                 targets(n.target)
             elif isinstance(n, ast.Expr) and isinstance(n.value, ast.Call) and isinstance(n.value.func, ast.Attribute) \
-                    and n.value.func.attr == 'append' and base_name(n.value.func):
+                    and n.value.func.attr in ('append', 'extend') and base_name(n.value.func):
                 out.append(base_name(n.value.func))
     return list(dict.fromkeys(out))
 
@@ -252,7 +281,16 @@ class Fn:
             if ta != 'val':
                 gap(n, f'dtype of {ta}')
             return self.part(pend, f'py_dtype_is_bool {a}'), 'bool'
+        if isinstance(r, ast.Constant) and r.value in DIMNAME and isinstance(op, (ast.Eq, ast.NotEq)):
+            a, ta = self.expr(n.left, env, pend)
+            if ta != 'cdim':
+                gap(n, f'comparison of {ta} with a dimension name')
+            text = f'(cdim_eqb {a} {DIMNAME[r.value]})'
+            return (f'(negb {text})' if isinstance(op, ast.NotEq) else text), 'bool'
         (a, ta), (b, tb) = self.num(n.left, env, pend), self.num(r, env, pend)
+        if (ta, tb) in (('rate', 'rate'), ('lab', 'lab')) and isinstance(op, (ast.Eq, ast.NotEq)):
+            text = f'({"rate_eqb" if ta == "rate" else "eqb_lab"} {a} {b})'
+            return (f'(negb {text})' if isinstance(op, ast.NotEq) else text), 'bool'
         if (ta, tb) != ('Z', 'Z'):
             gap(n, f'comparison on {ta}, {tb}')
         if isinstance(op, ast.NotEq):
@@ -271,11 +309,30 @@ class Fn:
         return e
 
     def comprehension(self, n, env, pend):
-        if len(n.generators) != 1 or n.generators[0].ifs or n.generators[0].is_async or \
-                not isinstance(n.generators[0].target, ast.Name):
+        if any(g.ifs or g.is_async or not isinstance(g.target, ast.Name) for g in n.generators):
+            gap(n, 'comprehension shape')
+        if isinstance(n, ast.ListComp) and len(n.generators) == 2:      # [c for array in arrays for c in array.attr]
+            g0, g1 = n.generators
+            if not (isinstance(n.elt, ast.Name) and n.elt.id == g1.target.id and isinstance(g1.iter, ast.Attribute) and
+                    isinstance(g1.iter.value, ast.Name) and g1.iter.value.id == g0.target.id and g0.target.id != g1.target.id):
+                gap(n, 'nested comprehension')
+            l, tl = self.expr(g0.iter, env, pend)
+            if tl != 'pdlist' or ATTR.get(('pd', g1.iter.attr), ('', ''))[1] != 'lab':
+                gap(n, f'flattening of {tl}')
+            return self.part(pend, f'labs_concat (map (fun {mg(g0.target.id)} => {ATTR["pd", g1.iter.attr][0]} '
+                                   f'{mg(g0.target.id)}) {l})'), 'lab'
+        if len(n.generators) != 1:
             gap(n, 'comprehension shape')
         g = n.generators[0]
         var = g.target.id
+        if isinstance(n, ast.ListComp) and not (isinstance(g.iter, ast.Call) and ast.unparse(g.iter.func) == 'range'):
+            l, tl = self.expr(g.iter, env, pend)
+            if tl == 'pdlist':                              # [<element, may raise> for a in arrays]
+                sub = []
+                e, te = self.expr(n.elt, {**env, var: 'pd'}, sub)
+                if te != 'pd':
+                    gap(n, f'list of {te}')
+                return self.part(pend, f'gmap (fun {mg(var)} =>\n{self.wrap(sub, "GOk " + e)}) {l}'), 'pdlist'
         if isinstance(n, ast.ListComp) and isinstance(n.elt, ast.Subscript) and isinstance(n.elt.slice, ast.Name) and \
                 n.elt.slice.id == var and var not in names_in(n.elt.value):
             l, tl = self.expr(n.elt.value, env, pend)       # [l[s] for s in idx]
@@ -294,10 +351,24 @@ class Fn:
 
     def subscript(self, n, env, pend):
         base = ast.unparse(n.value)
-        if base == 'np.s_' and 'np' not in env:            # np.s_[x] is x for one operand that is not written as a slice
-            if isinstance(n.slice, (ast.Slice, ast.Tuple)):
-                gap(n, 'np.s_ with a slice / several operands')
-            return self.expr(n.slice, env, pend)
+        if base == 'np.s_' and 'np' not in env:            # np.s_[x] is x; np.s_[:] is slice(None); np.s_[a, b] the tuple
+            def one(e):
+                if isinstance(e, ast.Slice):
+                    if e.lower or e.upper or e.step:
+                        gap(e, 'np.s_ with a slice that has bounds')
+                    return 'pfull'
+                v, tv = self.expr(e, env, pend)
+                if tv != 'val':
+                    gap(e, f'np.s_ of {tv}')
+                return v
+            if isinstance(n.slice, ast.Tuple):
+                return '(PTuple [' + '; '.join(one(e) for e in n.slice.elts) + '])', 'val'
+            return one(n.slice), 'val'
+        if isinstance(n.value, ast.Attribute) and n.value.attr == 'shape' and ast.unparse(n.slice) == '-1':
+            o, to = self.expr(n.value.value, env, pend)     # x.shape[-1] (= the pinned property n_time)
+            if to != 'pd':
+                gap(n, f'shape of {to}')
+            return f'(n_time {o})', 'Z'
         if isinstance(n.value, ast.Call) and ast.unparse(n.value.func) == 'np.arange' and len(n.value.args) == 1 \
                 and not n.value.keywords:
             k, tk = self.num(n.value.args[0], env, pend)
@@ -306,9 +377,15 @@ class Fn:
                 gap(n, f'np.arange({tk})[{tv}]')
             return self.part(pend, f'np_arange_getitem {k} {v}'), 'zlist'
         l, tl = self.expr(n.value, env, pend)
+        if tl == 'pdlist' and ast.unparse(n.slice) == '0':
+            return self.part(pend, f'list_hd {l}'), 'pd'
+        if tl == 'pdlist' and ast.unparse(n.slice) == '1:':
+            return f'(tl {l})', 'pdlist'
         if isinstance(n.slice, (ast.Slice, ast.Tuple)):
             gap(n, 'slice / tuple subscript')
         v, tv = self.expr(n.slice, env, pend)
+        if (tl, tv) == ('pd', 'val') and '__getitem__' in self.funcs:
+            return self.part(pend, f'gbind ({self.funcs["__getitem__"]["coq"]} {l} {v}) obj_as_pd'), 'pd'
         if (tl, tv) != ('lab', 'val'):
             gap(n, f'subscript of {tl} by {tv}')
         return self.part(pend, f'lab_getitem {l} {v}'), 'lab'
@@ -441,6 +518,20 @@ class Fn:
                 return ("match obj' with\n| OScal _ => GOk obj'\n| OArr obj' =>\n" + k({**env, 'obj': 'pd'}) + '\nend')
             if kind == 'sentinel' and 'skip' not in env:
                 return k({**env, 'skip': 'sentinel'})
+            if kind == 'dim_axis' and env.get('axis') == 'axis' and 'dim' not in env:
+                env2 = {v: t for v, t in env.items() if v != 'axis'}
+                return f"gbind (py_dim_axis axis') (fun dim' =>\n" + k({**env2, 'dim': 'cdim'}) + ')'
+            if kind == 'all_annotated' and env.get('arrays') == 'pdlist' and 'is_pipeline_data' not in env:
+                return k({**env, 'is_pipeline_data': 'allann'})
+            if kind == 'not_any' and env.get('is_pipeline_data') == 'allann' and env.get('arrays') == 'pdlist' and may_return:
+                return "if negb (existsb (fun _ : pd => true) arrays')\n then np_concatenate_none arrays'\n else " + k(env)
+            if kind == 'not_all' and env.get('is_pipeline_data') == 'allann' and env.get('arrays') == 'pdlist':
+                return "if negb (forallb (fun _ : pd => true) arrays')\n then GRaise EValue\n else " + k(env)
+            if kind == 'np_concatenate' and env.get('arrays') == 'pdlist' and env.get('dim') == 'cdim' and 'result' not in env:
+                return "gbind (np_concatenate_pd dim' arrays') (fun result' =>\n" + k({**env, 'result': 'shaped'}) + ')'
+            if kind == 'construct' and may_return and not rest and \
+                    [env.get(v) for v in ('result', 'fs', 's0', 'channel', 'metadata')] == ['shaped', 'rate', 'Z', 'lab', 'lab']:
+                return "pd_construct result' fs' s0' channel' metadata'"
             gap(s, 'pinned statement in an unexpected place')
         if isinstance(s, ast.Return):
             if not may_return or rest or s.value is None:
@@ -461,7 +552,7 @@ class Fn:
             tg = s.targets[0]
             if isinstance(tg, ast.Name):
                 if tg.id in self.spec['locals'] and isinstance(s.value, ast.List) and not s.value.elts:
-                    e, t = '[]', self.spec['locals'][tg.id]
+                    e, t = EMPTY[self.spec['locals'][tg.id]], self.spec['locals'][tg.id]
                 else:
                     e, t = self.expr(s.value, env, pend)
                 if env.get(tg.id, t) != t or t == 'sentinel':
@@ -493,10 +584,15 @@ class Fn:
                                        f'{BIN[type(s.op)]} {d}) in\n' + k(env))
             gap(s, 'augmented assignment target')
         if isinstance(s, ast.Expr) and isinstance(s.value, ast.Call) and isinstance(s.value.func, ast.Attribute) and \
-                isinstance(s.value.func.value, ast.Name) and s.value.func.attr == 'append' and len(s.value.args) == 1 \
-                and not s.value.keywords:
+                isinstance(s.value.func.value, ast.Name) and s.value.func.attr in ('append', 'extend') and \
+                len(s.value.args) == 1 and not s.value.keywords:
             l = s.value.func.value.id
             e, t = self.expr(s.value.args[0], env, pend)
+            if env.get(l) == 'lab' and t == 'lab' and l in self.spec['locals']:
+                r = self.part(pend, f'lab_{s.value.func.attr} {mg(l)} {e}')
+                return self.wrap(pend, f'let {mg(l)} := {r} in\n' + k(env))
+            if s.value.func.attr != 'append':
+                gap(s, 'extend')
             if env.get(l) != 'vlist' or t != 'val' or l not in self.spec['locals']:
                 gap(s, 'append to something that is not a list built by the function itself')
             return self.wrap(pend, f'let {mg(l)} := ({mg(l)} ++ [{e}]) in\n' + k(env))
@@ -510,20 +606,15 @@ class Fn:
         """state of a statement whose branches fall through; names it binds that do not exist before must be local to it"""
         vs = [v for v in assigned([s]) if v not in local]
         inside, whole = names_in(s), names_in(self.node)
-        for v in vs:
-            if v not in env and inside.count(v) != whole.count(v):
-                gap(s, f'{v} is bound in a branch and used outside it')
-        vs = [v for v in vs if v in env]
-        if not vs:
-            gap(s, 'a statement whose branches fall through must update existing variables')
-        return vs
+        new = [v for v in vs if v not in env and inside.count(v) != whole.count(v)]     # bound inside, used outside
+        return [v for v in vs if v in env], new
 
     def if_(self, s, rest, k, env, may_return):
         vs = assigned([s])
         last = s
         while len(last.orelse) == 1 and isinstance(last.orelse[0], ast.If):
             last = last.orelse[0]
-        if vs and not any(v in env for v in vs) and not last.orelse and not ends([s]):
+        if vs and not any(v in env for v in vs) and not last.orelse and not ends([s]) and self.joined_vars(s, env)[1]:
             # if / elif chain that only binds new names: falling through leaves them unbound
             if not (rest and isinstance(rest[0], ast.If) and isinstance(rest[0].test, ast.Call) and
                     ast.unparse(rest[0].test.func) == 'isinstance' and isinstance(rest[0].test.args[0], ast.Name) and
@@ -555,21 +646,27 @@ class Fn:
             a = self.block(s.body, None if eb else k, env, may_return)
             b = self.block(s.orelse, None if eo else k, env, may_return)
         else:
-            vs = self.joined_vars(s, env)
+            old, new = self.joined_vars(s, env)
+            vs, types = old + new, {}
 
             def join(env2):
-                if any(env2[v] != env[v] for v in vs):
+                if any(env2[v] != env[v] for v in old):
                     gap(s, 'a variable changes type in a branch')
+                for v in new:                               # a name bound by the statement and used after it:
+                    if v not in env2 or types.setdefault(v, env2[v]) != env2[v]:       # bound on every path, one type
+                        gap(s, f'{v} is not bound with one type on every path through the statement')
                 return 'GOk ' + tup(vs)
             a, b = self.block(s.body, join, env, False), self.block(s.orelse, join, env, False)
-            return self.wrap(pend, f'gbind (if {c}\n then {a}\n else {b}) (fun {pat(vs)} =>\n' + k(env) + ')')
+            return self.wrap(pend, f'gbind (if {c}\n then {a}\n else {b}) (fun {pat(vs)} =>\n' + k({**env, **types}) + ')')
         return self.wrap(pend, f'if {c}\n then {a}\n else {b}')
 
     def for_(self, s, k, env):
         if s.orelse or not isinstance(s.target, ast.Name) or s.target.id in env:
             gap(s, 'for / else, or a loop variable that exists before')
         var = s.target.id
-        vs = self.joined_vars(s, env, (var,))
+        vs, new = self.joined_vars(s, env, (var,))
+        if new:
+            gap(s, f'{new} bound in a loop body and used after the loop')
         pend = []
 
         def again(env2):
@@ -584,18 +681,21 @@ class Fn:
             loop = f'giter {n} (fun {pat(vs)} =>\n{body}) {tup(vs)}'
         else:
             it, ti = self.expr(s.iter, env, pend)
-            if ti != 'val':
+            if ti not in ('val', 'pdlist'):
                 gap(s, f'iteration over {ti}')
-            body = self.block(s.body, again, {**env, var: 'val'}, False)
-            loop = f'gfold (fun {mg(var)} {pat(vs)} =>\n{body}) {self.part(pend, f"py_iter {it}")} {tup(vs)}'
+            body = self.block(s.body, again, {**env, var: 'val' if ti == 'val' else 'pd'}, False)
+            seq = self.part(pend, f"py_iter {it}") if ti == 'val' else it
+            loop = f'gfold (fun {mg(var)} {pat(vs)} =>\n{body}) {seq} {tup(vs)}'
         return self.wrap(pend, f'gbind ({loop}) (fun {pat(vs)} =>\n' + k(env) + ')')
 
     # ------------------------------------------------------------ a whole function
     def translate(self):
         a = self.node.args
-        if a.vararg or a.kwarg or a.kwonlyargs or a.posonlyargs or a.defaults or self.node.decorator_list or \
-                [x.arg for x in a.args] != [p for p, _ in self.spec['params']]:
-            gap(self.node, f'signature is not {self.spec["params"]}')
+        names = [x.arg for x in a.args]
+        defaults = dict(zip(names[len(names) - len(a.defaults):], (ast.unparse(d) for d in a.defaults)))
+        if a.vararg or a.kwarg or a.kwonlyargs or a.posonlyargs or defaults != self.spec.get('defaults', {}) or \
+                self.node.decorator_list or names != [p for p, _ in self.spec['params']]:
+            gap(self.node, f'signature is not {self.spec["params"]} with defaults {self.spec.get("defaults", {})}')
         for n in ast.walk(self.node):
             if isinstance(n, (ast.Global, ast.Nonlocal, ast.Lambda, ast.FunctionDef, ast.ClassDef, ast.Try, ast.With,
                               ast.While, ast.Delete, ast.NamedExpr, ast.Yield, ast.YieldFrom, ast.Await)) and n is not self.node:
@@ -605,12 +705,12 @@ class Fn:
             gap(self.node, f'pinned statements not all found exactly once: {sorted(self.found)}, dead {self.dead}')
         coq = self.spec.get('coq', 'gen_' + self.spec['name'])
         binders = ''.join(f' ({mg(p)} : {COQ_TYPE[t]})' for p, t in self.spec['params'])
-        out = f'Definition {coq}{binders} : gres {COQ_TYPE[self.spec["ret"]]} :=\n{text}.\n'
+        out = f'Definition {coq}{binders} : gres ({COQ_TYPE[self.spec["ret"]]}) :=\n{text}.\n'
         return out, {'coq': coq, 'argtypes': [t for _, t in self.spec['params']], 'ret': self.spec['ret'],
                      'pinned': sorted(self.found), 'dead': self.dead}
 
 
-HEADER = '''From PV Require Import PData.TieLib.
+HEADER = '''From PV Require Import PData.TieLib PData.TieLibConcat.
 Open Scope Z_scope.
 '''
 
@@ -618,7 +718,7 @@ Open Scope Z_scope.
 def find_defs(tree):
     """target name -> FunctionDef; fails on duplicates and on any other module-level / class-level binding of a target"""
     defs, classes = {}, {}
-    mod_names = [t['name'] for t in TARGETS if t['cls'] is None]
+    mod_names = [t['name'] for t in TARGETS if t['cls'] is None] + list(PINNED_FUNCS)
     for n in tree.body:
         if isinstance(n, ast.ClassDef):
             if n.name in classes or n.name in mod_names:
@@ -635,6 +735,13 @@ def find_defs(tree):
                     (t.asname or t.name).split('.')[0] if isinstance(t, ast.alias) else None
                 if nm is not None and (nm in mod_names or nm in [t2['cls'] for t2 in TARGETS]):
                     raise TranslatorGap(f'{nm} is also bound at module level (line {n.lineno})')
+    for f, (params, body) in PINNED_FUNCS.items():
+        n = defs.get(f)
+        a = n.args if n is not None else None
+        if n is None or n.decorator_list or a.vararg or a.kwarg or a.kwonlyargs or a.posonlyargs or a.defaults or \
+                [x.arg for x in a.args] != params or '\n'.join(
+                    ast.unparse(b) for b in n.body if not (isinstance(b, ast.Expr) and isinstance(b.value, ast.Constant))) != body:
+            raise TranslatorGap(f'{f}: signature / body differ from the pinned text')
     for cls in {t['cls'] for t in TARGETS if t['cls']}:
         if cls not in classes:
             raise TranslatorGap(f'class {cls} not found')
@@ -676,6 +783,7 @@ def translate(repo):
         info['functions'][spec['name']] = {k: sig[k] for k in ('coq', 'argtypes', 'ret', 'pinned', 'dead')}
     info['pinned_expressions'] = sorted(PINNED_EXPR)
     info['pinned_properties'] = PROPERTIES
+    info['pinned_functions'] = sorted(PINNED_FUNCS)
     return HEADER + '\n' + '\n'.join(parts), info
 
 
@@ -793,6 +901,39 @@ def selftest_terms(pipeline, rng):
                 else:
                     continue                                # above 3-D: the model has no such result
             terms.append(f'check_gen_getitem (gen_getitem {x} {pyval(v)}) {got}')
+    # concat on annotated pieces: adjacent / gapped / overlapping time splits, other rate, labels, metadata, ndim; the
+    # channel and the epoch axis; axis given as int, name, or something unsupported; no piece at all
+    def lit(r):
+        f = Fraction(float(r.fs))
+        return (f'(mkv {_zl(r.shape)} {_zl(np.asarray(r).ravel())} {_z(r.s0)} {_z(f.numerator)} {_z(f.denominator)} '
+                f'{lab(r.channel)} {md(r.metadata)})')
+
+    def mk(shape, s0=0, fs=36000.0, c0=70, m0=90):
+        n = len(shape)
+        return pipeline.PipelineData(np.arange(int(np.prod(shape)), dtype=float).reshape(shape) + 1000 * s0, fs=fs, s0=s0,
+                                     channel=[c0 + i for i in range(shape[-2])] if n > 1 else c0,
+                                     metadata=[{'id': m0 + i} for i in range(shape[-3])] if n > 2 else {'id': m0})
+    AX = {-1: '(AxInt (-1))', -2: '(AxInt (-2))', -3: '(AxInt (-3))', 'time': '(AxName DTime)', 'channel': '(AxName DChan)',
+          'epoch': '(AxName DEpoch)', 0: '(AxInt 0)', 'frequency': 'AxOther', 2: '(AxInt 2)'}
+    groups = []
+    for shape in [(6,), (2, 6), (2, 2, 6)]:
+        x = mk(shape, s0=4)
+        a, b, c = x[..., :2], x[..., 2:5], x[..., 5:]
+        groups += [[a, b, c], [a, c], [b, a], [a, b, b], [a], [a, mk(shape[:-1] + (3,), s0=6, fs=18000.0)],
+                   [a, mk(shape[:-1] + (3,), s0=6, c0=71)], [a, mk(shape[:-1] + (3,), s0=6, m0=91)], [a, mk((3,), s0=6)],
+                   [x, mk(shape, s0=4, c0=80, m0=95)], [x, x], [x, mk(shape[:-1] + (4,), s0=4)]]
+    groups += [[], [mk((1, 3)), mk((2, 3), c0=75)], [mk((3,)), mk((2, 3))]]
+    for ps in groups:
+        for ax in ([-1, 'time', -2, 'epoch'] if ps else [-1, 'frequency']) + [rng.choice([-3, 'channel', 0, 2, 'frequency'])]:
+            try:
+                r = pipeline.concat(list(ps), axis=ax)
+            except tuple(exc) as e:
+                got = f'(RErr {exc[type(e)]})'
+            else:
+                if not (isinstance(r, pipeline.PipelineData) and 1 <= r.ndim <= 3):
+                    continue
+                got = lit(r)
+            terms.append(f'check_gen_getitem (gen_concat (pds [{"; ".join(lit(q) for q in ps)}]) {AX[ax]}) {got}')
     return terms
 
 
